@@ -29,6 +29,7 @@ pub mod pair;
 pub mod refmodel;
 pub mod rng;
 pub mod runner;
+pub mod tbl;
 pub mod world;
 
 use json::J;
@@ -172,7 +173,8 @@ pub fn dispatch() -> Option<i32> {
                 }
             }
             let faults: std::collections::BTreeMap<&'static str, u64> = res.counters.iter().filter(|(k, _)| k.starts_with("fault_")).map(|(k, v)| (*k, *v)).collect();
-            let probes: std::collections::BTreeMap<&'static str, u64> = res.counters.iter().filter(|(k, _)| !k.starts_with("fault_")).map(|(k, v)| (*k, *v)).collect();
+            let activity: std::collections::BTreeMap<&'static str, u64> = res.counters.iter().filter(|(k, _)| k.starts_with("real_") || k.starts_with("sim_")).map(|(k, v)| (*k, *v)).collect();
+            let probes: std::collections::BTreeMap<&'static str, u64> = res.counters.iter().filter(|(k, _)| !k.starts_with("fault_") && !k.starts_with("real_") && !k.starts_with("sim_")).map(|(k, v)| (*k, *v)).collect();
             let mut comps = J::obj();
             for (c, how) in COMPONENTS {
                 comps.set(c, J::s(how));
@@ -190,6 +192,7 @@ pub fn dispatch() -> Option<i32> {
                 .with("workers", J::i(workers as i64))
                 .with("faults_fired", runner::counters_json(&faults))
                 .with("probe_counters", runner::counters_json(&probes))
+                .with("real_code_activity", runner::counters_json(&activity))
                 .with("coverage_gaps", J::strs(&gaps))
                 .with("distinct_abstract_states", J::i(res.distinct_states as i64))
                 .with("failing_runs", J::i(res.failing_runs as i64))
